@@ -178,8 +178,9 @@ loop:
 		/* match any number of chars from this position on */
 		retry_p = p + 1;
 		skip_s = s;
-		/* dot after '*' must not match leading dot */
-		if (p[1] == '.' && disallow_wildcard(s, str, flags))
+		/* dot (also an escaped one) after '*' must not match leading dot */
+		if ((p[1] == '.' || (p[1] == '\\' && p[2] == '.' && !(flags & FNM_NOESCAPE)))
+		    && disallow_wildcard(s, str, flags))
 			return FNM_NOMATCH;
 		break;
 	case '?':
